@@ -206,8 +206,10 @@ def _mask(s):
 
 def coq_case(c, o):
 	k = c['k']
-	if 'skip' in o or str(o.get('err', '')).startswith('escape'):
-		return None if 'skip' in o else 'CUtf8 [] false'  # an escaping exception: force a disagreement
+	if 'skip' in o or k.startswith('rt_'):
+		return None  # oracle-only kinds
+	if str(o.get('err', '')).startswith('escape'):
+		return 'CUtf8 [] false'  # an escaping exception where the model has none: force a disagreement
 	if k == 'quote':
 		return 'CQuote %s %s %s' % (N(_mask(_safe(c['safe']))), X(bytes.fromhex(c['d'])), X(bytes.fromhex(o['out'])))
 	if k == 'unquote':
